@@ -361,6 +361,15 @@ class Ctx:
             "violations": viol_count,
         }
         ev["coverage"]["anchored_line_coverage"] = self.cover.report()
+        # the schema-level guards some theorems carry (deterministic / in-range / live automata, TextLoop, transitive
+        # compatibility), evaluated by the model driver on the named schemas this run used — measured, not assumed
+        try:
+            named = [i for i in self.driver.schemas if getattr(i, "name", "random") not in ("random", "marks-random")]
+            if named and self.build_ok:
+                outs = self.driver.run([{"op": "schemaHyps", "s": i.lean_id} for i in named])
+                ev["coverage"]["schema_guards"] = {i.name: o.get("ok", o) for i, o in zip(named, outs)}
+        except Exception as e:  # noqa: BLE001  (measuring only)
+            ev["coverage"]["schema_guards"] = {"error": str(e)[:200]}
         if extra:
             ev["coverage"].update(extra)
         with open(os.path.join(EVIDENCE, self.prop + ".json"), "w") as f:
